@@ -323,7 +323,13 @@ func init() {
 					off += n
 				}
 			}
-			if v := flowOracle(inc, ex); v.Status != "ok" {
+			if unordered {
+				// the reference fixes one of the possible arrival orders: task key and
+				// bytes of the joining task are not comparable; the audit record is
+				if !completedOK(inc) {
+					return Skipped(Viol("no-completion", "", "%s", endDesc(inc)))
+				}
+			} else if v := flowOracle(inc, ex); v.Status != "ok" {
 				// only the joining task's own output is this property's business
 				if v.Clause == "wrong-content" && strings.Contains(v.Detail, "joined.join.o0 ") {
 					return v
